@@ -32,8 +32,10 @@ def junk(rng):
 
 def invalid_line(cls, rng, helps):
     """Lines that are invalid by construction."""
-    k = rng.randrange(6)
+    k = rng.randrange(7)
     names = [n.replace("_", "-") for n, _ in public_members(cls)]
+    if k == 6:  # a number, but not one a pool size can be: answered with the error, nothing changes
+        return f"pool-size {rng.choice(['-1', '-2', '-7'])}"
     if k == 0:
         return rng.choice(["frobnicate", "apply_", "CANCEL", "num_running", "exit", "help", "quit", "_task-name", "pool.size"]) + rng.choice(["", " 1", " --x"])
     if k == 1:  # missing required positional
@@ -83,6 +85,9 @@ def gen_scenario(rng):
     nsess = rng.choice([1, 1, 2, 3])
     sc = {"cls": cls, "size": rng.choice([None, 1, 2, 5]), "widths": [rng.choice([80, 80, 40, 120, rng.randint(30, 200)]) for _ in range(nsess)],
           "pre": rng.choice([0, 0, 1, 2, 3]), "seed": rng.getrandbits(48), "n": rng.randint(6, 30) if rng.random() > 0.08 else rng.randint(80, 160), "sfunc": rng.choice(["work", "work", "block", "fail"])}
+    sc["shrunk"] = rng.random() < 0.4
+    if sc["shrunk"]:
+        sc["pre"] = rng.choice([2, 3])
     return sc
 
 
@@ -133,11 +138,15 @@ class World(ControlWorld):
         tok = targets.side.set("pre")
         for i in range(self.sc["pre"]):
             if self.sc["cls"] == "T":
-                pool.apply(rng.choice([targets.block, targets.work, targets.fail]), args=(i,), num=rng.choice([1, 2]))
+                pool.apply(targets.block if self.sc.get("shrunk") else rng.choice([targets.block, targets.work, targets.fail]), args=(i,), num=rng.choice([1, 2]))
             else:
                 pool.start(rng.choice([1, 2]))
         targets.side.reset(tok)
         await self.idle()
+        if self.sc.get("shrunk") and pool.num_running > 1:
+            # the pool was made smaller than what is running in it before the clients arrive
+            pool.pool_size = pool.num_running - 1
+            self.sit["C18.pool_shrunk_below_running"] += 1
         sessions = []
         for w in self.sc["widths"]:
             s = await self.open(pool, w, handshake_clause="C18.alive")
